@@ -156,15 +156,24 @@ Proof.
   intros s inputs Hi Hs. apply (model_passes_checker M_hist); auto; intros a b; apply M_hist_valid.
 Qed.
 
-(** Not proved: that the result is independent of the table's iteration order (run-to-run
-    determinism under the per-diff random hash seed). Every run checks it on each case
-    (second run of the real code in the same process; model with reversed order). *)
-Definition C03_deterministic_stmt : Prop :=
+(** Determinism: neither the raw matching nor the hunks depend on the iteration order of the
+    hash table (any two permutations of its entries), hence not on the per-diff random hash
+    seed: positions are unique keys, so sorting erases the enumeration order. *)
+Theorem C03_deterministic :
   forall (order1 order2 : list (bytes * list nat) -> list (bytes * list nat)),
     (forall h, Permutation.Permutation (order1 h) h) ->
     (forall h, Permutation.Permutation (order2 h) h) ->
-    forall a b, collect_unchanged_words bytes_eqb order1 max_occurrences a b
-                = collect_unchanged_words bytes_eqb order2 max_occurrences a b.
+    forall (max_occ : nat),
+    (forall a b, collect_unchanged_words bytes_eqb order1 max_occ a b
+                 = collect_unchanged_words bytes_eqb order2 max_occ a b)
+    /\ forall (s : steps) (inputs : list bytes),
+         hunks (run_steps (collect_unchanged_words bytes_eqb order1 max_occ) s inputs)
+         = hunks (run_steps (collect_unchanged_words bytes_eqb order2 max_occ) s inputs).
+Proof.
+  intros o1 o2 P1 P2 m. split.
+  - intros a b. now apply M_order_independent.
+  - intros s inputs. now apply hunks_order_independent.
+Qed.
 
 (** The constants used by the model are the ones scraped from core/src/diff.rs. *)
 Theorem C03_tables_agree : tables_okb = true.
@@ -187,3 +196,4 @@ Print Assumptions C03_matching_eq.
 Print Assumptions C03_okb_spec.
 Print Assumptions C03_layerB_valid.
 Print Assumptions C03_full_proved.
+Print Assumptions C03_deterministic.
